@@ -141,7 +141,14 @@ func (x *Executor) execInstr(fr *Frame, in ssa.Instruction, st *State, reach str
 		}
 
 	case *ssa.Call:
+		var before *State
+		if len(u.twoState) > 0 {
+			before = st.clone()
+		}
 		fr.vals[t] = x.execCall(fr, st, reach, &t.Call, t)
+		if before != nil {
+			x.applyTwoStateLemmas(before, st)
+		}
 
 	case *ssa.Defer:
 		d := deferred{frame: fr.id, call: &t.Call, cond: "true", instr: t}
@@ -180,6 +187,9 @@ func (x *Executor) execInstr(fr *Frame, in ssa.Instruction, st *State, reach str
 		xv := x.value(fr, t.X)
 		mi := x.makeIface(xv, t.X.Type(), t.Type())
 		mi.Taint = xv.Taint
+		inner := xv
+		inner.Ty = t.X.Type()
+		mi.Boxed = &inner
 		fr.vals[t] = mi
 
 	case *ssa.ChangeInterface:
@@ -362,7 +372,17 @@ func (x *Executor) execUnOp(fr *Frame, t *ssa.UnOp, st *State, reach string) {
 		if xv.Addr == nil {
 			x.check(fr, "nil", fmt.Sprintf("(not (= %s 0))", xv.T), reach, "nil dereference (load)")
 		}
-		fr.vals[t] = x.loadAddr(st, x.deref(xv), reach)
+		lv := x.loadAddr(st, x.deref(xv), reach)
+		if _, isSig := t.Type().Underlying().(*types.Signature); isSig && lv.Fn == nil {
+			// a function-typed variable shared with closures that is assigned exactly once, with a
+			// static function: the load yields that function
+			if a, ok := t.X.(*ssa.Alloc); ok && a.Heap {
+				if f := uniqueFuncStore(a); f != nil {
+					lv.Fn = f
+				}
+			}
+		}
+		fr.vals[t] = lv
 	case token.NOT:
 		fr.vals[t] = Val{T: fmt.Sprintf("(not %s)", xv.T), Ty: t.Type()}
 	case token.SUB:
@@ -386,6 +406,52 @@ func (x *Executor) execUnOp(fr *Frame, t *ssa.UnOp, st *State, reach string) {
 	default:
 		u.unsupported("unary op " + t.Op.String())
 	}
+}
+
+// uniqueFuncStore: the single static, capture-free function ever stored into a heap-allocated
+// function variable (stores through closures' free variables are looked for as well).
+func uniqueFuncStore(a *ssa.Alloc) *ssa.Function {
+	var found *ssa.Function
+	n := 0
+	var scan func(v ssa.Value, depth int) bool
+	scan = func(v ssa.Value, depth int) bool {
+		refs := v.Referrers()
+		if refs == nil || depth > 3 {
+			return false
+		}
+		for _, r := range *refs {
+			switch rt := r.(type) {
+			case *ssa.Store:
+				if rt.Addr == v {
+					f, ok := rt.Val.(*ssa.Function)
+					if !ok {
+						return false
+					}
+					found = f
+					n++
+				} else {
+					return false // the address itself is stored somewhere
+				}
+			case *ssa.UnOp, *ssa.DebugRef:
+			case *ssa.MakeClosure:
+				cf := rt.Fn.(*ssa.Function)
+				for i, b := range rt.Bindings {
+					if b == v {
+						if !scan(cf.FreeVars[i], depth+1) {
+							return false
+						}
+					}
+				}
+			default:
+				return false
+			}
+		}
+		return true
+	}
+	if !scan(a, 0) || n != 1 {
+		return nil
+	}
+	return found
 }
 
 // arithResult applies machine semantics to a mathematical result: either a no-overflow
